@@ -479,7 +479,11 @@ class Quaternion(Vector):
             quat_over_s[mask,j+1] = Q[mask,i,j] + Q[mask,j,i]
             quat_over_s[mask,k+1] = Q[mask,i,k] + Q[mask,k,i]
 
-        obj = Quaternion((quat_over_s * s[...,np.newaxis])[0], matrix._mask_)
+        quat = quat_over_s * s[...,np.newaxis]
+        if np.any(zero_mask):
+            quat[zero_mask] = (1., 0., 0., 0.)  # r == 0 only for the identity
+
+        obj = Quaternion(quat[0], matrix._mask_)
 
         # The following code does not work, perhaps because of the vague meaning
         # of partial derivatives when the components of a Matrix3 are so closely
